@@ -1627,7 +1627,26 @@ struct Extractor
                 f.raw("switches", jlist(sw));
         }
         if (astre && (astre->match(name) || astre->match(inst)))
+        {
             f.raw("ast", astJson(body));
+            // constructor member initialisers: [{"member": name, "init": ast}]
+            if (auto* cd = dyn_cast<CXXConstructorDecl>(fd))
+            {
+                std::vector<std::string> inits;
+                for (auto const* ci : cd->inits())
+                {
+                    if (!ci->isWritten() || !ci->getInit())
+                        continue;
+                    std::string m = ci->isAnyMemberInitializer() && ci->getAnyMember()
+                                        ? ci->getAnyMember()->getNameAsString()
+                                        : std::string("<base>");
+                    inits.push_back("{\"member\":" + jstr(m) + ",\"init\":"
+                                    + astJson(ci->getInit()) + "}");
+                }
+                if (!inits.empty())
+                    f.raw("inits", jlist(inits));
+            }
+        }
         funcs.push_back(f.done());
     }
 
